@@ -62,6 +62,16 @@ prev = sorted((V / "seeded").glob(f"{pid}-*"))
 if prev:
     avoid = "Earlier engineers already produced the following changes for this property — do something DIFFERENT (other functions, other clauses, other trigger conditions):\n" + "\n".join(
         "  - " + (json.load(open(d / "meta.json")).get("title") or json.load(open(d / "meta.json")).get("clause_broken") or d.name)[:200] for d in prev)
-txt = txt.replace("@AVOID@", avoid)
+flavour = ""
+if tag >= "c":
+    flavour = ("\nFor this round prefer changes of these kinds (at least two of your changes should be of one of them): "
+               "(a) TWO COOPERATING SITES that each look fine alone (e.g. a helper's contract changed slightly and one caller "
+               "that relied on the old contract; a default changed in one place and a duplicated constant elsewhere); "
+               "(b) STALE or SHARED STATE that only a multi-step sequence of operations on the same object exposes (a cache, a "
+               "buffer reused between calls, an attribute updated too early/late, behaviour on the second call / after an "
+               "exception / after a restart); (c) a fault at a particular point of a multi-step operation; (d) behaviour that "
+               "depends on an argument's memory layout, dtype, device-independent aliasing (same tensor passed twice) or on "
+               "whether an optional argument is omitted vs passed with its default value.\n")
+txt = txt.replace("@AVOID@", avoid + flavour)
 (d / "PROMPT.txt").write_text(txt.replace("{N}", n))
 print(d / "PROMPT.txt")
